@@ -109,8 +109,17 @@ impl<'a> IpHeadersSlice<'a> {
                 exts.auth.map(|a| a.next_header()).unwrap_or(v.protocol())
             }
             IpHeadersSlice::Ipv6(v, exts) => {
-                let (_, payload_ip_number, _, _) =
-                    Ipv6Extensions::from_slice_lax(v.next_header(), exts.slice());
+                // walk the extension header slices (the slice can contain
+                // more extension headers then fit into `Ipv6Extensions`)
+                let mut payload_ip_number = v.next_header();
+                for ext in exts.clone() {
+                    use Ipv6ExtensionSlice::*;
+                    payload_ip_number = match ext {
+                        HopByHop(e) | Routing(e) | DestinationOptions(e) => e.next_header(),
+                        Fragment(e) => e.next_header(),
+                        Authentication(e) => e.next_header(),
+                    };
+                }
                 payload_ip_number
             }
         }
